@@ -1169,3 +1169,14 @@ MA('C18', 'half-complex inverse forgets the real shape (regression)',
 MA('C09', 'quadratic perturbation Lipschitz without abs', 'odl/solvers/functional/functional.py',
    'FunctionalQuadraticPerturb.__init__', 'grad_lipschitz = func.grad_lipschitz + 2 * abs(self.quadratic_coeff)',
    'grad_lipschitz = func.grad_lipschitz + 2 * self.quadratic_coeff', 'grad_lipschitz')
+M('C16', 'corner blocks of earlier axes not extended', 'odl/util/numerics.py',
+  """        if direction == 'forward':
+            working_slc[axis] = full_slc[axis]
+        else:
+            working_slc[axis] = intersec_slc[axis]""",
+  """        if direction == 'forward':
+            working_slc = list(intersec_slc)
+            working_slc[axis] = full_slc[axis]
+        else:
+            working_slc = list(full_slc)
+            working_slc[axis] = intersec_slc[axis]""", 'resize_array[')
